@@ -6,7 +6,7 @@ ID = "C05"
 ANCHORS = 'deep_lift_shap._nonlinear,deep_lift_shap.hypothetical_attributions,deep_lift_shap.deep_lift_shap'.split(",")
 MIN_INSTANCES = 6
 # rule families whose findings in this module are derived by an engine (not by comparing spellings): exempt from the rewrite gate
-SEMANTIC_RULES = {"R-TERM"}
+SEMANTIC_RULES = set()
 EXPLANATION = (
     "R-TERM: the canonical term of deep_lift_shap._nonlinear equals the rescale rule exactly as the property states it: "
     "where(|in(x)-in(ref)| < tau, ordinary gradient, grad_output * (out(x)-out(ref)) / (in(x)-in(ref))) with the same orientation "
